@@ -67,10 +67,15 @@ static int tiff_live;
 void*
 _Znwm(unsigned long n)
 {
-    VASSERT(n == sizeof(struct tiff_mirror), "layout of class Tiff changed: update struct tiff_mirror in the harness");
-    VASSERT(!tiff_live, "one device per harness run");
-    tiff_live = 1;
-    return &the_tiff;
+    /* the device object is handed out as a TYPED static object; any other allocation of the unit
+     * (e.g. a std::string that outgrows its small buffer) is an ordinary heap object */
+    if (n == sizeof(struct tiff_mirror) && !tiff_live) {
+        tiff_live = 1;
+        return &the_tiff;
+    }
+    void* p = malloc(n);
+    VASSUME(p != 0);
+    return p;
 }
 void _ZdlPv(void* p) { if (p == (void*)&the_tiff) tiff_live = 0; else free(p); }
 void _ZdlPvm(void* p, unsigned long n) { _ZdlPv(p); }
@@ -156,16 +161,58 @@ file_write(const struct file* f, uint64_t off, const uint8_t* beg, const uint8_t
     if (off + n > flen) flen = off + n;
     return 1;
 }
-/* ---- vsnprintf model ---- */
-static unsigned long long va_rec[NFRAMES + 1][4];
-static int va_calls;
+/* ---- vsnprintf model ----
+ * The description is produced by vsnprintf(fmt, ...).  The model does not render text; it walks
+ * the format (a constant of the unit, or whatever the unit built) and records, per conversion,
+ * WHICH JSON KEY immediately precedes it and the argument passed for it: "key":%llu -> number,
+ * "metadata":%s -> string.  Any other conversion in a description format is reported (a '%' that
+ * comes from user text would be interpreted by the C library: the description is then not the
+ * JSON the property promises, and the call reads arguments that do not exist). */
+#define NKEYS 4
+static const char* const KEYS[NKEYS] = { "\"frame_id\":", "\"hardware_frame_id\":", "\"runtime\":", "\"hardware\":" };
+static const int KEYLEN[NKEYS] = { 11, 20, 10, 11 };
+static unsigned long long va_rec[NFRAMES + 1][NKEYS];
+static int va_have[NFRAMES + 1][NKEYS];
+static const char* va_meta[NFRAMES + 1];
+static int va_calls, va_bad_conv, va_bad_key;
+static int
+key_before(const char* fmt, int pos, const char* key, int klen)
+{
+    if (pos < klen) return 0;
+    for (int i = 0; i < 20; ++i)
+        if (i < klen && fmt[pos - klen + i] != key[i]) return 0;
+    return 1;
+}
+#ifndef FMTMAX
+#define FMTMAX 140
+#endif
 int
 vsnprintf(char* buf, size_t n, const char* fmt, va_list ap)
 {
     if (buf) {
         /* second call (with a buffer): record the arguments of this description */
         int k = va_calls < NFRAMES ? va_calls : NFRAMES;
-        for (int i = 0; i < 4; ++i) va_rec[k][i] = va_arg(ap, unsigned long long);
+        for (int i = 0; i < FMTMAX; ++i) {
+            if (fmt[i] == 0) break;
+            if (fmt[i] != '%') continue;
+            if (fmt[i + 1] == 'l' && fmt[i + 2] == 'l' && fmt[i + 3] == 'u') {
+                unsigned long long v = va_arg(ap, unsigned long long);
+                int hit = 0;
+                for (int q = 0; q < NKEYS; ++q)
+                    if (key_before(fmt, i, KEYS[q], KEYLEN[q])) { va_rec[k][q] = v; ++va_have[k][q]; hit = 1; }
+                if (!hit) ++va_bad_key;
+                i += 3;
+            } else if (fmt[i + 1] == 's') {
+                const char* sarg = va_arg(ap, const char*);
+                if (key_before(fmt, i, "\"metadata\":", 11)) va_meta[k] = sarg; else ++va_bad_key;
+                i += 1;
+            } else if (fmt[i + 1] == '%') {
+                i += 1;
+            } else {
+                ++va_bad_conv;
+                break;
+            }
+        }
         ++va_calls;
         for (size_t i = 0; i < DESC + 1; ++i)
             if (i < n) buf[i] = (i + 1 < n) ? 'x' : 0;
@@ -326,6 +373,7 @@ main(void)
     static char meta_json[] = "{}";
 #else
     struct Storage* dev = tiff_init();
+    static char meta_user[] = "{\"a\":\"5%\"}";
 #endif
     VASSUME(dev != 0);
     dev->device.driver = &drv;
@@ -341,6 +389,10 @@ main(void)
     p.uri.is_ref = 1;
     p.pixel_scale_um.x = 1;
     p.pixel_scale_um.y = 1;
+#if DEV == 1 && defined(TIFF_META)
+    /* user metadata: valid JSON that contains a per-cent sign */
+    p.external_metadata_json.str = meta_user; p.external_metadata_json.nbytes = sizeof meta_user; p.external_metadata_json.is_ref = 1;
+#endif
 #if DEV == 2
 #ifndef SBS_META
 #define SBS_META 1
@@ -399,9 +451,25 @@ main(void)
     VASSERT(frames_read == NFRAMES && stage == 2 + 3 * NFRAMES, "C15: number of directories written differs from the number of frames appended");
     VASSERT(terminated, "C15: directory chain does not end in a zero link");
     VASSERT(prev_end <= flen && link_val <= flen + 8, "C15: structure outside the file");
-    for (int i = 0; i < NFRAMES; ++i)
+    VASSERT(va_bad_conv == 0, "C15: a description format contains a conversion other than the ids/timestamps/metadata ones (user text interpreted as format: the description is not the promised JSON)");
+    VASSERT(va_bad_key == 0, "C15: a value in the description is not attached to one of the keys frame_id, hardware_frame_id, runtime, hardware, metadata");
+    for (int i = 0; i < NFRAMES; ++i) {
+        VASSERT(va_have[i][0] == 1 && va_have[i][1] == 1 && va_have[i][2] == 1 && va_have[i][3] == 1, "C15: description lacks one of frame_id, hardware_frame_id, timestamps.runtime, timestamps.hardware");
         VASSERT(va_rec[i][0] == F[i].v.frame_id && va_rec[i][1] == F[i].v.hardware_frame_id && va_rec[i][2] == F[i].v.timestamps.acq_thread && va_rec[i][3] == F[i].v.timestamps.hardware,
                 "C15: description does not carry the frame's ids and timestamps");
+#if DEV == 1 && defined(TIFF_META)
+        if (i == 0) {
+            VASSERT(va_meta[0] != 0, "C15: the first frame's description does not carry the user's metadata");
+            int same = 1;
+            for (size_t c = 0; c < sizeof meta_user; ++c)
+                if (va_meta[0][c] != meta_user[c]) same = 0;
+            VASSERT(same, "C15: the metadata in the first frame's description is not the user's metadata");
+        } else
+            VASSERT(va_meta[i] == 0, "C15: metadata repeated on a later frame");
+#else
+        VASSERT(va_meta[i] == 0 || DEV == 2, "C15: metadata in a description although none was set");
+#endif
+    }
     VASSERT(va_calls == NFRAMES, "C15: number of descriptions differs from the number of frames");
     storage_close(dev);
     VASSERT(bad_ops == 0 && n_close == n_create && destroyed == 1, "C16: descriptor misuse at close");
